@@ -53,7 +53,7 @@ def check(ctx):
     ev = P.adts.get('rip_kernel::Event')
     if adt is None or ev is None:
         raise CheckError('C03.1: rip_kernel::{Event,EventKind} missing from the ADT facts')
-    src = os.path.join(driver.REPO, adt['file'])
+    src = os.path.join(P.root, adt['file'])
     tab = table([src])[0]['items']
     by = {i['name']: i for i in tab if i['module'] == ''}
     for need in ('Event', 'EventWire', 'EventKind'):
